@@ -17,6 +17,8 @@ def jobs(tier):
             for tag, koom, ksig in faults:
                 if op == 0:   # RequestName under a fault: cost grows steeply with queue length and fault index (measured: Q1.a4 121 s, Q2.a5 331 s, Q2.a6 > 900 s)
                     tiers = ("quick", "thorough") if ((qn == 0 and koom <= 7 and ksig <= 2) or (qn == 1 and koom in (1, 2, 3, 4))) else ("thorough",)
+                    # measured in a full thorough run (8 jobs in parallel, 62 GB): request faults beyond these did not reach a verdict in 30..60 min / 12 GB and are not registered
+                    if not ((qn == 0 and (1 <= koom <= 7 or 1 <= ksig <= 2)) or (qn >= 1 and 1 <= koom <= 5)): continue
                 J.append(Job(name=f"names.{nm}.Q{qn}.{tag}", group="C14.names", harness="harness/C14_services.c", defines={"QN": qn, "OP": op, "KOOM": koom, "KSIG": ksig},
                              real=REAL, env=ENV, checks="assert", unwind=8, unwindset=["vf_err_is.0:66", "memcpy.0:10", "memmove.0:10", "memmove.1:10"], timeout=900 if "quick" in tiers else 5400, tiers=tiers,
                              encodes=["bus_registry_acquire_service", "bus_registry_release_service", "bus_service_remove_owner", "bus_service_add_owner", "bus_service_swap_owner",
